@@ -249,7 +249,8 @@ class DictField(Field):
             return {}
 
         if not self._use_proxy:
-            return dict(value)
+            # a copy at every depth: the tree must not alias the mutable values held by the config
+            return copy.deepcopy(dict(value))
 
         return {
             _basic_key(self.key_field.to_basic(cfg, key)): self.value_field.to_basic(cfg, val)  # type: ignore
